@@ -191,6 +191,30 @@ static void caseC11tree(vh::Rng& g)
 			}
 			} catch (std::exception& e) { R->violation("C11/tree/exception", std::string(e.what()) + " after: " + trace); return; }
 		}
+		if (!pool.empty() && g.chance(1, 5))
+		{	// results depend only on the operand's content: the handle with its history against an automaton
+			// built afresh with the same rules and final states
+			size_t k = pickIdx(); const RTA& sh = pool[k].s; R->count("history-vs-fresh-comparisons");
+			Aut F; { std::vector<RRule> rs(sh.rules.begin(), sh.rules.end()); std::shuffle(rs.begin(), rs.end(), g); for (auto& r : rs) { std::vector<size_t> ch(r.ch.begin(), r.ch.end()); F.AddTransition(ch, r.sym, r.par); } for (St f : sh.fin) F.SetStateFinal(f); }
+			Aut& Hh = *pool[k].a; std::string key;
+			try
+			{
+				R->phase("history-vs-fresh IsLangEmpty"); if (Hh.IsLangEmpty() != F.IsLangEmpty()) key = "emptiness";
+				R->phase("history-vs-fresh RemoveUselessStates"); if (key.empty() && snapshot(Hh.RemoveUselessStates()) != snapshot(F.RemoveUselessStates())) key = "remove-useless";
+				R->phase("history-vs-fresh RemoveUnreachableStates"); if (key.empty() && snapshot(Hh.RemoveUnreachableStates()) != snapshot(F.RemoveUnreachableStates())) key = "remove-unreachable";
+				R->phase("history-vs-fresh Reduce");
+				if (key.empty())
+				{
+					RTA r1 = snapshot(Hh.Reduce()), r2 = snapshot(F.Reduce());
+					if (r1.states().size() != r2.states().size() || r1.rules.size() != r2.rules.size()) key = "reduce-size";
+					else { Alpha ia; if (rm::inducedAlpha({&r1, &r2, &sh}, ia) && (rm::cmpLang(r1, r2, ia) > 0 || rm::cmpLang(r1, sh, ia) > 0)) key = "reduce-language"; }
+				}
+				R->phase("history-vs-fresh GetCandidateTree"); if (key.empty() && Hh.GetCandidateTree().IsLangEmpty() != F.GetCandidateTree().IsLangEmpty()) key = "candidate-emptiness";
+				R->phase("history-vs-fresh CheckInclusion"); if (key.empty() && (!Aut::CheckInclusion(Hh, F) || !Aut::CheckInclusion(F, Hh))) key = "inclusion-with-fresh-copy";
+			}
+			catch (std::exception& e) { key = std::string("exception:") + e.what(); }
+			if (!key.empty()) { R->violation("C11/tree/history-dependent/" + key.substr(0, key.find(':')), "handle " + vh::str(k) + " with its history and a freshly built automaton with the same content give different outcomes (" + key + ") after: " + trace); return; }
+		}
 		R->desc(trace); R->phase("re-read all handles");
 		for (size_t k = 0; k < pool.size(); ++k)
 		{
@@ -256,6 +280,23 @@ static void caseC11fa(vh::Rng& g)
 				default: break;
 			}
 			} catch (std::exception& e) { R->violation("C11/fa/exception", std::string(e.what()) + " after: " + trace); return; }
+		}
+		if (!pool.empty() && g.chance(1, 5))
+		{	// the handle with its history against an automaton built afresh with the same content
+			size_t k = pickIdx(); const RFA& sh = pool[k].s; R->count("fa-history-vs-fresh-comparisons");
+			FA F; for (auto& t : sh.tr) F.AddTransition(std::get<0>(t), faSyms()[std::get<1>(t)], std::get<2>(t)); for (St f : sh.fin) F.SetStateFinal(f); for (St q : sh.start) F.SetStateStart(q, faSyms()[3]);
+			FA& Hh = *pool[k].a; std::string key;
+			auto sameLang = [&](const FA& x, const FA& y) { RFA a = vu::faObserve(x), b = vu::faObserve(y); rm::JointW K = rm::jointWord({&a, &b}, 3); if (K.capped) return true; for (auto& m : K.reach) if (K.acc(m, 0) != K.acc(m, 1)) return false; return true; };
+			try
+			{
+				R->phase("fa history-vs-fresh Union"); if (!sameLang(FA::Union(Hh, Hh), FA::Union(F, F))) key = "union";
+				R->phase("fa history-vs-fresh Intersection"); if (key.empty() && !sameLang(FA::Intersection(Hh, F), FA::Intersection(F, F))) key = "intersection";
+				R->phase("fa history-vs-fresh Reverse"); if (key.empty() && !sameLang(Hh.Reverse(), F.Reverse())) key = "reverse";
+				R->phase("fa history-vs-fresh RemoveUselessStates"); if (key.empty() && !sameLang(Hh.RemoveUselessStates(), F.RemoveUselessStates())) key = "remove-useless";
+				R->phase("fa history-vs-fresh CheckInclusion"); if (key.empty() && (!FA::CheckInclusion(Hh, F) || !FA::CheckInclusion(F, Hh))) key = "inclusion-with-fresh-copy";
+			}
+			catch (std::exception& e) { key = std::string("exception:") + e.what(); }
+			if (!key.empty()) { R->violation("C11/fa/history-dependent/" + key.substr(0, key.find(':')), "handle " + vh::str(k) + " with its history and a freshly built NFA with the same content give different outcomes (" + key + ") after: " + trace); return; }
 		}
 		R->desc(trace); R->phase("re-read all FA handles");
 		for (size_t k = 0; k < pool.size(); ++k)
